@@ -11,17 +11,23 @@ from concurrent.futures import ThreadPoolExecutor
 from .. import core
 
 ID = "C12"
-MODULE = "DrandProofs.C12"
+MODULE = "DrandProofs.C12R"   # imports DrandProofs.C12 (the store as it was, the cache) ; C12R = the repaired store
 CB_THEOREMS = ["Drand.Chain.Callback." + t for t in [
     "c12_queue_bound", "c12_put_never_waits", "c12_put_completes_alone", "c12_put_nonblocking_partial", "c12_stall_counterexample",
     "stuck_blocks", "c12_stall_is_permanent", "c12_addcallback_stall_counterexample", "c12_worker_fifo",
-    "tie_callback_put_shape", "tie_callback_queue_const"]]
+    "tie_callback_put_shape", "tie_callback_queue_const",
+    # the repaired store (stepR), every schedule
+    "tie_callback_variant", "tie_code_is_known_variant", "rinv_step", "c12r_queue_bound", "c12r_lock_discipline",
+    "c12r_put_never_waits", "c12r_put_completes_alone", "c12r_put_begins", "c12_addcallback_never_waits",
+    "c11_dispatch_reaches_or_ends", "c11_never_dropped", "c11_closed_is_last", "c11_table_frozen_during_put"]]
 CACHE_THEOREMS = ["Drand.Beacon." + t for t in [
-    "c12_cache_inv", "c12_cache_bound", "c12_rounds_listed", "c12_no_wedge", "c12_append_takes", "c12_isolation", "c12_flush_exact"]]
+    "c12_cache_inv", "c12_cache_bound", "c12_rounds_listed", "c12_no_wedge", "c12_append_takes", "c12_isolation", "c12_flush_exact",
+    "append_duplicate", "tie_cache_append_variant"]]
 THEOREMS = CB_THEOREMS + CACHE_THEOREMS
 TRUSTED = ["Lean 4 kernel; axioms per theorem under coverage.axioms",
            "modelled, not verified: goroutines as explicit steps, a buffered channel as a bounded FIFO list, sync.RWMutex as 'writers wait for readers and vice versa' (Go's writer preference is not needed for any statement)",
-           "go2lean facts: Gen.callbackWorkerQueue, Gen.maxPartialsPerNode, Gen.callbackPutDispatchBlocking (plain send vs select/default), callbackPutHoldsReadLock, callbackPutBaseFirst, callbackAdd/RemoveLocked, callbackAddCloseSendBlocking",
+           "go2lean facts: Gen.callbackWorkerQueue, Gen.maxPartialsPerNode, Gen.callbackPutDispatchBlocking (plain send vs select/default), callbackOverflowEndsConsumer (the default branch is exactly: stopWorker(id, true); delete(callbacks, id) — any other select/default is refused), callbackPutHoldsReadLock / HoldsWriteLock, callbackCloseOutOfBand (stopWorker + the worker's closed-channel branch), callbackPutBaseFirst, callbackAdd/RemoveLocked, callbackAddCloseSendBlocking, syncChainRegistersStream",
+           "which ids are stream consumers is an input of the model (cfg.streamIds = the ids registered with AddStreamCallback); the engine registers them with that method where the tree has it",
            "harness engines 'cbstore', 'cache', 'flood' (real keys and threshold shares), 'stream'; a Put/AddCallback/RemoveCallback that has not returned after the watchdog (2 s) is reported as blocked",
            "gRPC flow control (a client that stops reading eventually blocks stream.Send) is assumed, not reproduced: the scripted consumer blocks in its callback directly"]
 ASSUMPTIONS = ["a stream client that stops reading makes stream.Send block (HTTP/2 flow control)",
@@ -39,19 +45,33 @@ def gen_facts():
     txt = open(os.path.join(core.LEAN, "Gen", "Consts.lean")).read() + open(os.path.join(core.LEAN, "Gen", "Callback.lean")).read()
     g = lambda n: re.search(r"def %s : \w+ := (\S+)" % n, txt).group(1)
     return {"cap": int(g("callbackWorkerQueue")), "maxp": int(g("maxPartialsPerNode")), "blocking": g("callbackPutDispatchBlocking") == "true",
-            "add_blocking": g("callbackAddCloseSendBlocking") == "true"}
+            "add_blocking": g("callbackAddCloseSendBlocking") == "true", "ends": g("callbackOverflowEndsConsumer") == "true"}
 
 
 # ------------------------------------------------------------------------------------------ (a) cbstore
 def cb_scenarios(rng, tier, cap):
     S = []
+    # the recorded witnesses of the two stalls first: on the code as it was they must stall (known findings), on a repaired
+    # store they must give the recorded repaired answers
+    for f in sorted(glob.glob(os.path.join(core.VERIF, "corpus", ID, "*.json"))):
+        c = json.load(open(f))
+        if c.get("engine") == "cbstore":
+            S.append({"name": "corpus:" + os.path.basename(f), "ops": c["ops"], "expect": c.get("signature"), "repaired": c.get("repaired", {})})
     # the stall witness: one consumer whose callback never returns, cap+2 Puts, then RemoveCallback
-    S.append({"name": "stall", "ops": ["init", "add c gate", "add d fast"] + ["put"] * (cap + 2) +
+    # (`adds` = registered by a stream handler: AddStreamCallback where the tree has it; `add` = a callback of the node itself)
+    S.append({"name": "stall", "ops": ["init", "adds c gate", "add d fast"] + ["put"] * (cap + 2) +
               ["remove c", "last", "release c 1", "wait", "got d", "release c 500", "wait", "got c", "got d", "put", "got d"]})
     # the reconnect-under-write-lock witness
-    S.append({"name": "stall-add", "ops": ["init", "add c gate"] + ["put"] * (cap + 1) + ["add c fast", "last", "release c 1", "wait", "put", "got c"]})
+    S.append({"name": "stall-add", "ops": ["init", "adds c gate"] + ["put"] * (cap + 1) + ["adds c fast", "last", "release c 1", "wait", "put", "got c"]})
+    # a stream consumer that stopped reading, far more beacons than its queue holds, then it reads again and its client
+    # reconnects: every Put must return; the consumer gets a gap-free prefix and then `closed`, nothing after
+    S.append({"name": "overflow-reconnect", "ops": ["init", "adds c gate", "adds e fast", "add d fast"] + ["put"] * (cap + 5) +
+              ["release c 3", "wait", "got e", "got d", "got c", "release c 500", "wait", "got c", "adds c fast", "put", "put", "got c", "got d", "got e"]})
+    # a callback of the node itself is never ended: with its queue full the Put waits for it (both trees), and goes on afterwards
+    S.append({"name": "internal-full", "ops": ["init", "add i gate", "adds f fast"] + ["put"] * (cap + 2) +
+              ["release i 5", "wait", "put", "release i 500", "wait", "got i", "got f"]})
     # a slow but live consumer never blocks anybody as long as it keeps up within the queue
-    S.append({"name": "slow", "ops": ["init", "add s gate", "add f fast"] +
+    S.append({"name": "slow", "ops": ["init", "adds s gate", "add f fast"] +
               sum([["put"] * 60 + ["release s 60", "got f"] for _ in range(4)], []) + ["release s 10", "wait", "got s", "got f"]})
     # generated: several consumers, registrations and removals at any time, never more than `cap` outstanding per gated consumer
     n = 12 if tier == "quick" else 300
@@ -68,7 +88,7 @@ def cb_scenarios(rng, tier, cap):
                     continue   # replacing a consumer that sits in its callback is the reconnect scenario above
                 cons[cid] = r.choice(["fast", "gate"])
                 outstanding[cid] = 0
-                ops.append(f"add {cid} {cons[cid]}")
+                ops.append(f"{r.choice(['add', 'adds', 'adds'])} {cid} {cons[cid]}")
             elif k < 18 and cons:
                 cid = r.choice(sorted(cons))
                 ops.append(f"remove {cid}")
@@ -99,13 +119,16 @@ def cb_scenarios(rng, tier, cap):
 
 
 def cb_oracle(ops, outs, cap):
-    """C12(a) on the implementation's transcript: no Put / AddCallback / RemoveCallback ever waits; every consumer gets
-    exactly the rounds stored while it was registered, in order. Returns (violations, deviations)."""
+    """C12(a) + the store side of C11 on the implementation's transcript: no Put / AddCallback / RemoveCallback ever waits for a
+    stream consumer; every consumer gets exactly the rounds stored while it was registered, in order — or, and this is the ONLY
+    alternative, a stream consumer whose queue was full when a beacon was dispatched gets a gap-free prefix up to that point, then
+    `closed`, then nothing. A round missing in the middle (a silent skip) is a violation. Returns (violations, deviations)."""
     V, Dv = [], []
-    reg = {}        # id -> {"mode", "from": first round it must see, "handed": jobs handed over, "returned": callbacks allowed to return}
+    reg = {}        # id -> {"mode", "stream", "first": first round it must see, "jobs": rounds handed over, "credits", "ended"}
     removed = {}
     head = 0
     blocked_put = False
+    is_full = lambda k: k["mode"] == "gate" and not k.get("ended") and len(k["jobs"]) - k["credits"] >= cap + 1
     for op, out in zip(ops, outs):
         f = op.split()
         if out.startswith(("panic", "err", "unsettled")) or out == "bad-op":
@@ -120,37 +143,49 @@ def cb_oracle(ops, outs, cap):
                 V.append(f"put stored {r} after {head}"); return V, Dv
             head = r
             # a gated consumer that sits in a callback with CallbackWorkerQueue jobs queued behind it has a full queue
-            full = [c for c, k in reg.items() if k["mode"] == "gate" and len(k["jobs"]) - k["credits"] >= cap + 1]
+            full = [c for c, k in reg.items() if is_full(k)]
+            full_stream = [c for c in full if reg[c]["stream"]]
+            full_own = [c for c in full if not reg[c]["stream"]]
             if out.startswith("blocked"):
                 blocked_put = True
                 for c, k in reg.items():
-                    k["jobs"].append(r)
-                if full:
-                    Dv.append((SIG_STALL, f"Put of round {r} did not return within the watchdog: consumer {full[0]} has not returned from its callback and {cap} jobs are queued behind it"))
+                    if not k.get("ended"):
+                        k["jobs"].append(r)
+                if full_own:
+                    pass    # the node waits for its own callback: not a remote party's doing (C12 speaks about stream consumers)
+                elif full_stream:
+                    Dv.append((SIG_STALL, f"Put of round {r} did not return within the watchdog: stream consumer {full_stream[0]} has not returned from its callback and {cap} jobs are queued behind it"))
                 else:
                     V.append(f"Put of round {r} blocked although no consumer has a full queue"); return V, Dv
             else:
+                if full_own:
+                    V.append(f"Put of round {r} returned although the queue of {full_own[0]} (a callback of the node itself) was full: the beacon cannot have reached it"); return V, Dv
                 for c, k in reg.items():
-                    if c in full:
-                        k["overflow"].append(r)   # a non-blocking dispatch: the consumer that fell behind misses this job
+                    if k.get("ended"):
+                        continue
+                    if c in full_stream:
+                        k["ended"] = r       # the store did not wait: the one thing it may do instead is end this consumer
                     else:
                         k["jobs"].append(r)
-        elif f[0] == "add":
+        elif f[0] in ("add", "adds"):
+            new = {"mode": f[2], "stream": f[0] == "adds", "first": head + 1, "jobs": [], "credits": 0}
             if out == "blocked":
                 k = reg.get(f[1])
                 if blocked_put:
-                    Dv.append((SIG_STALL, "AddCallback waits for the write lock behind the blocked Put"))
-                elif k and k["mode"] == "gate" and len(k["jobs"]) - k["credits"] >= cap + 1:
+                    if not any(is_full(x) and not x["stream"] for x in reg.values()):
+                        Dv.append((SIG_STALL, "AddCallback waits for the write lock behind the blocked Put"))
+                elif k and k["stream"] and is_full(k):
                     Dv.append((SIG_ADD, f"AddCallback({f[1]}) blocks while holding the write lock: the close signal cannot enter the full queue of the consumer it replaces"))
                 else:
                     V.append(f"`{op}` blocked without a listed circumstance"); return V, Dv
-                reg[f[1]] = {"mode": f[2], "first": None, "jobs": [], "overflow": [], "credits": 0, "pending": True}
+                reg[f[1]] = dict(new, first=None, pending=True)
             elif out == "ok":
-                reg[f[1]] = {"mode": f[2], "first": head + 1, "jobs": [], "overflow": [], "credits": 0}
+                reg[f[1]] = new
         elif f[0] == "remove":
             if out == "blocked":
                 if blocked_put:
-                    Dv.append((SIG_STALL, f"RemoveCallback({f[1]}) cannot take the write lock while the blocked Put holds the read lock"))
+                    if not any(is_full(x) and not x["stream"] for x in reg.values()):
+                        Dv.append((SIG_STALL, f"RemoveCallback({f[1]}) cannot take the write lock while the blocked Put holds the read lock"))
                 else:
                     V.append(f"`{op}` blocked without a listed circumstance"); return V, Dv
             if f[1] in reg:
@@ -172,20 +207,25 @@ def cb_oracle(ops, outs, cap):
             if k is None or out == "bad-state" or k.get("pending"):
                 continue
             got = [] if out == "-" else out.split(",")
-            rounds = [int(x) for x in got if x != "closed"]
             if k["first"] is None:
                 continue
             last = k.get("last", head)
-            jobs = k["jobs"]
-            entered = len(jobs) if k["mode"] == "fast" else min(len(jobs), k["credits"] + 1)
-            want = jobs[:entered]
+            seq = [str(x) for x in k["jobs"]]
+            if k.get("ended"):
+                seq.append("closed")        # an ended consumer hears `closed` after everything that was queued for it
+            else:
+                got = [x for x in got if x != "closed"]     # the close signal of a replacement is C11's stream engine's business
+            entered = len(seq) if k["mode"] == "fast" else min(len(seq), k["credits"] + 1)
+            want = seq[:entered]
             if blocked_put:
                 # the blocked Put has reached some consumers and not others
-                ok = rounds == want or rounds == want[:-1] or rounds[:-1] == want
+                ok = got == want or got == want[:-1] or got[:-1] == want
             else:
-                ok = rounds == want
+                ok = got == want
             if not ok:
-                V.append(f"consumer {f[1]} ({k['mode']}, registered before round {k['first']}, {k['credits']} callbacks released, store at {last}) got {rounds[:4]}..{rounds[-3:]} ({len(rounds)} rounds), expected exactly {want[:1]}..{want[-1:]} ({len(want)}; dropped for overflow: {k['overflow']})"); return V, Dv
+                what = "a silent skip or a repeat" if [x for x in got if x != "closed"] != want[:len([x for x in got if x != "closed"])] else "too few or too many deliveries"
+                V.append(f"consumer {f[1]} ({'stream' if k['stream'] else 'own'}, {k['mode']}, registered before round {k['first']}, {k['credits']} callbacks released, store at {last}"
+                         f"{', ended by the store at round %d' % k['ended'] if k.get('ended') else ''}) got {got[:4]}..{got[-3:]} ({len(got)}), expected exactly {want[:1]}..{want[-2:]} ({len(want)}): {what}"); return V, Dv
         elif f[0] == "qlen":
             if out.isdigit() and int(out) > cap:
                 V.append(f"queue of {f[1]} holds {out} > {cap} jobs"); return V, Dv
@@ -248,7 +288,7 @@ def parse_dump(out):
     rounds = {}
     for e in m.group(1).split():
         k, v = e.split("=")
-        rounds[k] = set(v.split(",")) if v else set()
+        rounds[k] = set(x.split("/")[0] for x in v.split(",")) if v else set()     # "signer/first bytes of the cached partial"
     return rounds
 
 
@@ -363,11 +403,12 @@ def explore(ctx, res):
         return s, o, m
     with ThreadPoolExecutor(max_workers=8) as ex:
         results = list(ex.map(run_cb, scens))
-    stall_seen = False
+    stall_seen = stall_witness = False
+    ended_seen = False
     for s, outs, mo in results:
         total += len(s["ops"])
         for op, o in zip(s["ops"], outs):
-            count("cbstore", op.split()[0] + ":" + o.split()[0] if op.split()[0] in ("put", "add", "remove", "wait") else op.split()[0])
+            count("cbstore", op.split()[0] + ":" + o.split()[0] if op.split()[0] in ("put", "add", "adds", "remove", "wait") else op.split()[0])
         if any(o.startswith("ok ") for o in outs):
             nontriv.add(("cbstore", tuple(s["ops"])))
         V, Dv = cb_oracle(s["ops"], outs, cap)
@@ -379,23 +420,45 @@ def explore(ctx, res):
             j = core.first_diff(outs, mo)
             res.add_violation({"engine": "cbstore", "kind": "model-impl-diverge", "scenario": s["name"], "ops": compress(s["ops"][:j + 1]),
                                "observed": outs[j:j + 1], "expected": mo[j:j + 1],
-                               "note": f"callbackStore model (variant blocking={facts['blocking']}, read off the source) no longer matches the implementation"}, found=False)
+                               "note": f"callbackStore model (variant blocking={facts['blocking']} ends={facts['ends']}, read off the source) no longer matches the implementation"}, found=False)
             return finish(res, total, nontriv, dist, samples, validated)
         validated += 1
+        if s.get("expect"):
+            if facts["ends"]:
+                # a repaired tree: the witness must not stall any more and must answer as recorded
+                bad = [f"`{op}` answered {o[:60]}" for op, o in zip(s["ops"], outs) if o.startswith(("blocked", "still-blocked"))]
+                bad += [f"`{op}` answered {o[:40]}…{o[-20:]}, recorded repaired answer {want[:40]}…{want[-20:]}" for op, want in s["repaired"].items()
+                        for o in [o2 for op2, o2 in zip(s["ops"], outs) if op2 == op][-1:] if o != want]
+                if bad or Dv:
+                    res.add_violation({"engine": "cbstore", "kind": "impl-violates", "scenario": s["name"], "ops": compress(s["ops"]), "observed": compress(outs),
+                                       "oracle": "go2lean recognised the repaired callbackStore, but the recorded stall witness does not give the repaired answers: " + "; ".join(bad + [d[1] for d in Dv])[:600]})
+                    return finish(res, total, nontriv, dist, samples, validated)
+                count("cbstore", "witness-repaired:" + s["name"])
+            elif not any(sig == s["expect"] for sig, _ in Dv):
+                count("deviations", "witness-no-longer-fails:" + s["expect"])
         for sig, what in Dv:
             count("deviations", sig)
             if s["name"] in ("stall", "stall-add"):
                 stall_seen = True
+            if sig == SIG_STALL and s["name"] in ("stall", "overflow-reconnect", "corpus:stall_put.json"):
+                stall_witness = True
             res.report(sig, {"engine": "cbstore", "kind": "impl-violates", "scenario": s["name"], "ops": compress(s["ops"]), "observed": compress(outs), "oracle": what})
             if res.violations:
                 return finish(res, total, nontriv, dist, samples, validated)
+        if s["name"] == "overflow-reconnect":
+            # observed, not assumed: the consumer that fell behind heard `closed` as its last word
+            g = [o for op, o in zip(s["ops"], outs) if op == "got c"]
+            ended_seen = len(g) >= 2 and g[1].endswith(",closed") and g[1].split(",")[:-1] == [str(x) for x in range(1, len(g[1].split(",")))]
+            samples.append({"engine": "cbstore", "scenario": s["name"], "ops": compress(s["ops"]), "impl": compress([o if len(o) < 80 else o[:30] + " … " + o[-30:] for o in outs])})
         if s["name"] == "stall":
             samples.append({"engine": "cbstore", "scenario": "stall", "ops": compress(s["ops"]), "impl": compress(outs)})
     # the regenerated fact and the observed behaviour must agree (a repaired dispatch flips both, and the finding disappears)
-    observed_blocking = dist["deviations"].get(SIG_STALL, 0) > 0
-    if observed_blocking != facts["blocking"]:
-        res.add_violation({"engine": "cbstore", "kind": "model-impl-diverge", "ops": ["stall witness"],
-                           "note": f"go2lean says the dispatch in callbackStore.Put is {'a plain send' if facts['blocking'] else 'non-blocking'} but the stall witness {'does' if observed_blocking else 'does not'} block"}, found=False)
+    observed_blocking = stall_witness
+    if observed_blocking != facts["blocking"] or ended_seen != facts["ends"]:
+        res.add_violation({"engine": "cbstore", "kind": "model-impl-diverge", "ops": ["stall witness", "overflow-reconnect"],
+                           "note": f"go2lean says the dispatch in callbackStore.Put to a stream consumer is {'a plain send' if facts['blocking'] else 'non-blocking'}"
+                                   f"{' and ends a consumer whose queue is full' if facts['ends'] else ''}, but the stall witness {'does' if observed_blocking else 'does not'} block "
+                                   f"and the overflowing stream consumer {'was' if ended_seen else 'was not'} told `closed`"}, found=False)
         return finish(res, total, nontriv, dist, samples, validated)
 
     # ---- (c) node level: replay of a member's valid partial with junk previous signatures
@@ -476,7 +539,9 @@ def finish(res, total, nontriv, dist, samples, validated):
     res.cov["evaluations"] = total
     res.cov["distinct_nontrivial"] = len(nontriv)
     res.cov["traces_validated_against_impl"] = validated
-    res.cov["rule"] = ("(a) cbstore: the stall witness (gated consumer, CallbackWorkerQueue+2 Puts, RemoveCallback), the reconnect-under-write-lock witness, a slow-but-live consumer, and seeded scenarios with up to 5 fast/gated consumers, "
+    res.cov["rule"] = ("(a) cbstore: the stall witness (gated STREAM consumer, CallbackWorkerQueue+2 Puts, RemoveCallback), the reconnect-under-write-lock witness, overflow-reconnect (CallbackWorkerQueue+5 Puts past a stream consumer that "
+                       "stopped reading: every Put returns or the known stall is reported; the consumer gets a gap-free prefix, then `closed`, then nothing; a silent skip fails), internal-full (the node does wait for its OWN callback), "
+                       "a slow-but-live consumer, and seeded scenarios with up to 5 fast/gated own/stream consumers, "
                        "registrations/removals at any time and never more than CallbackWorkerQueue outstanding jobs per gated consumer — there every Put/Add/Remove must return within the watchdog and every consumer must get exactly "
                        "the rounds stored while registered, in order; (b) cache: the two pre-fix witnesses, one signer × 3·Max rounds, × 2·Max previous signatures, seeded floods of 2–5 signers with malformed partials and flushes, sizes checked "
                        "after every op, isolation checked between dumps; (c) flood: real Handler, n=4 thr=3, Max-1 and Max replays of a member's valid partial with junk previous signatures on two unchained schemes and the chained one, "
